@@ -74,17 +74,18 @@ type client struct {
 	relay net.IP // giaddr or nil
 	cid   []byte // option 82 circuit-id (unique per client) or nil
 	// userspace view
-	offered  net.IP
-	bound    net.IP
-	ref      *dhcpv4.DHCPv4 // last userspace OFFER/ACK carrying an address for this client
-	ended    string         // "released", "declined", "expired" or ""
-	hadCID   bool
-	l2       bool             // option 82 is inserted by a layer-2 access node: giaddr stays 0
-	oldCIDs  [][]byte         // circuit-ids this line had before it was moved to another port
-	movedAck int              // how many of oldCIDs userspace has seen replaced (an ACK of a request carrying the new one)
-	swapped  int              // how often the hardware address behind this circuit-id was replaced
-	leaseMAC net.HardwareAddr // hardware address the userspace lease was last acknowledged to
-	o82      int              // shape of option 82 in the next userspace message: 0 full, 1 remote-id only, 2 absent
+	offered    net.IP
+	bound      net.IP
+	ref        *dhcpv4.DHCPv4 // last userspace OFFER/ACK carrying an address for this client
+	ended      string         // "released", "declined", "expired" or ""
+	hadCID     bool
+	l2         bool             // option 82 is inserted by a layer-2 access node: giaddr stays 0
+	oldCIDs    [][]byte         // circuit-ids this line had before it was moved to another port
+	movedAck   int              // how many of oldCIDs userspace has seen replaced (an ACK of a request carrying the new one)
+	unseenCIDs [][]byte         // previous circuit-ids whose replacement userspace never saw from the lease's own station
+	swapped    int              // how often the hardware address behind this circuit-id was replaced
+	leaseMAC   net.HardwareAddr // hardware address the userspace lease was last acknowledged to
+	o82        int              // shape of option 82 in the next userspace message: 0 full, 1 remote-id only, 2 absent
 }
 
 func (c *client) request(mt dhcpv4.MessageType, xid uint32, req net.IP, ciaddr net.IP) *dhcpv4.DHCPv4 {
@@ -377,6 +378,9 @@ func TestFastPathAgreesWithUserspace(t *testing.T) {
 	// the scripted matrix runs three times: 6-, 7- and 16-octet client hardware addresses
 	total := histories + 3*len(scripts)*len(pools)
 	for h := 0; h < total; h++ {
+		if only := os.Getenv("C03_ONLY_HISTORY"); only != "" && only != fmt.Sprint(h) {
+			continue // debugging aid: re-run one history of the tier
+		}
 		rng := run.SubRand("hist", h)
 		pc := pools[h%len(pools)]
 		var script []forced
@@ -403,7 +407,7 @@ func TestFastPathAgreesWithUserspace(t *testing.T) {
 				}
 			}
 			zeroServerConfig(k) // a fresh loader starts from a zeroed server_config (array map: not covered by the loop above)
-			ifc := ifaces[h%2] // the server runs on an interface with / without a hardware address in turn
+			ifc := ifaces[h%2]  // the server runs on an interface with / without a hardware address in turn
 			ld, _ := bngebpf.NewLoader(ifc.name, zap.NewNop())
 			ld.VerifSetMaps(k.Coll.Maps)
 			pm := dhcp.NewPoolManager(ld, nil)
@@ -465,6 +469,9 @@ func TestFastPathAgreesWithUserspace(t *testing.T) {
 			var trace []string
 			xid := uint32(h) << 16
 			send := func(c *client, m *dhcpv4.DHCPv4) *dhcpv4.DHCPv4 {
+				if os.Getenv("C03_ONLY_HISTORY") != "" {
+					fmt.Printf("DEBUG send %s type=%v giaddr=%v opt82=%q\n", m.ClientHWAddr, m.MessageType(), m.GatewayIPAddr, m.Options.Get(dhcpv4.OptionRelayAgentInformation))
+				}
 				srv.VerifHandle(conn, peer, m)
 				synctest.Wait()
 				return conn.take()
@@ -483,6 +490,15 @@ func TestFastPathAgreesWithUserspace(t *testing.T) {
 					// the CPE behind this access line is replaced: same relay and circuit-id, new hardware address.
 					// The binding belongs to the line (userspace finds the lease by circuit-id and keeps the address).
 					c.mac = net.HardwareAddr{0x02, byte(h), byte(rng.IntN(256)), byte(rng.IntN(256)), byte(0x80 | s), c.mac[5]}
+					if c.movedAck < len(c.oldCIDs) {
+						// the line was moved but the station that holds the lease never showed userspace the new
+						// circuit-id (its renewals since carried none, so the server rightly kept the previous one on the
+						// lease): the new CPE is a new session under the new circuit-id and the previous circuit-id still
+						// belongs to the old station's unexpired lease - it is not "abandoned", nothing is demanded for it
+						c.unseenCIDs = append(c.unseenCIDs, c.oldCIDs[c.movedAck:]...)
+						c.oldCIDs = c.oldCIDs[:c.movedAck]
+						run.Count("port_moves_never_shown_to_userspace_before_cpe_swap(not judged)", 1)
+					}
 					c.swapped++
 					run.Count("cpe_swaps", 1)
 					trace = append(trace, fmt.Sprintf("CPE replaced: circuit-id %q now has hardware address %s", c.cid, c.mac))
@@ -601,6 +617,17 @@ func TestFastPathAgreesWithUserspace(t *testing.T) {
 					}
 					trace = append(trace, "cleanup-tick")
 				}
+				if os.Getenv("C03_ONLY_HISTORY") != "" {
+					if m := k.Coll.Maps["circuit_id_subscribers"]; m != nil {
+						kb := make([]byte, m.KeySize())
+						vb := make([]byte, m.ValueSize())
+						var ks []string
+						for it := m.Iterate(); it.Next(&kb, &vb); {
+							ks = append(ks, string(bytes.TrimRight(kb, "\x00")))
+						}
+						fmt.Printf("DEBUG after %q: circuit_id_subscribers=%q\n", trace[len(trace)-1:], ks)
+					}
+				}
 				// copy kernel maps into the native program and probe every client
 				nat.Reset()
 				for name, m := range k.Coll.Maps {
@@ -640,6 +667,9 @@ func TestFastPathAgreesWithUserspace(t *testing.T) {
 						for _, v := range variants {
 							isOld := false
 							for _, oc := range c.oldCIDs {
+								isOld = isOld || bytes.Equal(oc, v)
+							}
+							for _, oc := range c.unseenCIDs {
 								isOld = isOld || bytes.Equal(oc, v)
 							}
 							if !isOld {
